@@ -96,7 +96,7 @@ def transcribe_factory(ns):
             avail = t.bool('sslib')
             fails = t.bool('gpgfails')
             payload = t.payload('root', dict)
-            prior = t.sdict('prior', [(t.str('pk', 66), {'signature': 'ab' * 64})])
+            prior = t.sdict('prior', [(t.str('pk', 66), {'other_headers': t.str('poh', 4), 'signature': t.str('psig', 130)})])
             signable = {'signatures': prior, 'signed': payload}
             # securesystemslib's GPG_SIGNATURE_SCHEMA / pubkey schema
             eng.add(canon(keyid, 40), canon_even(oh), canon(sig, 128), canon(q, 64))
